@@ -128,6 +128,19 @@ let () =
       let bi x = if x then 1 else 0 in
       Printf.printf "%s\tfetch=%s ck2_unchanged=%d live_unchanged=%d restore2=%s:%d restore3=%s:%d\n" id (res_str fr) (bi same_ck) (bi live)
         (res_str r2) (bi (int_of_n b4.vs_val = 2)) (res_str r3) (bi (int_of_n b5.vs_val = 3))
+    | id :: "I" :: _eng :: trials :: _ ->
+      (* every engine captures the view before it releases the apply loop (Model.v, the order of steps):
+         run the protocol per trial with a write right after the release and count the trials whose
+         checkpoint does not hold the content of the Backup call *)
+      let n = int_of_string trials in
+      let bad = ref 0 in
+      for t = 1 to n do
+        let h0 = n_of_int (2 * t) and h1 = n_of_int (2 * t + 1) in
+        (match bsched_run (bstart h0) [BCapture; BRelease; BWrite h1; BWrite h0; BWrite h1] with
+         | Some s -> (match s.b_view with Some v when int_of_n v = int_of_n h0 -> () | _ -> incr bad)
+         | None -> incr bad)
+      done;
+      Printf.printf "%s\ttrials=%d later_writes_visible=%d\n" id n !bad
     | id :: "K" :: at :: _ ->
       (* value level: restore returns the content recorded at the backup instant whatever was written later *)
       let s0 = vinit N0 (n_of_dec at) in
